@@ -7,6 +7,7 @@
 import ErgoProofs.Lemmas.ConcReach
 import ErgoProofs.Lemmas.StorageThm
 import ErgoProofs.Lemmas.PropsAux
+import ErgoProofs.Lemmas.ChunkedRead
 namespace Ergo
 open Proc
 
@@ -39,5 +40,42 @@ theorem C13_torn_tail_is_dropped {classify : Storage.Bytes → Storage.LineClass
     (hr : Storage.readEvents classify limit f = .ok es) (hs : Storage.Short encode limit evs) :
     ∃ n, n ≤ evs.length ∧ Storage.readEvents classify limit (Storage.appendTorn classify encode f evs k) = .ok (es ++ evs.take n) :=
   Storage.appendTorn_reads hc f es evs k hr hs
+
+
+/-! ### the reader reads in several `read(2)` calls — why `rRead` may be one step of the process model
+
+`Proc.Step.rRead` hands a reader the whole content of the file it opened in one step.  The real reader collects it read by read while
+writers go on.  That is the same thing exactly when the bytes of an open file never change: every writer only adds bytes at the end of the
+log (one write per batch, or the newline completing an unterminated final event) and everything else — `plan`, `compact`, dropping the
+fragment of a killed writer — goes to a new file renamed over the log (T1 `truncate_sites`, T3 "no ftruncate on the live log"). -/
+
+/-- read by read from a file that only grows: what the reader holds is a prefix of the file's last content … -/
+theorem C13_chunked_reader_sees_a_prefix (vs : List (Storage.Bytes × Nat)) (h : Storage.GrowsOnly (vs.map (·.1))) (hne : vs ≠ []) :
+    Storage.chunkedRead vs [] <+: (vs.getLast hne).1 :=
+  Storage.chunkedRead_prefix vs h hne
+
+/-- … all of it once a read has reached end of file … -/
+theorem C13_chunked_reader_complete (vs : List (Storage.Bytes × Nat)) (h : Storage.GrowsOnly (vs.map (·.1))) (hne : vs ≠ [])
+    (heof : (vs.getLast hne).2 > (vs.getLast hne).1.length) :
+    Storage.chunkedRead vs [] = (vs.getLast hne).1 :=
+  Storage.chunkedRead_complete vs h hne heof
+
+/-- … and while a batch is being appended it decodes to everything from before plus a whole number of the batch's events, never an error -/
+theorem C13_chunked_reader_of_append {classify : Storage.Bytes → Storage.LineClass} {encode : Event → Storage.Bytes} {limit : Nat}
+    (hc : Storage.Codec classify encode) (f : Storage.Bytes) (es evs : List Event)
+    (hr : Storage.readEvents classify limit f = .ok es) (hs : Storage.Short encode limit evs) (hnl : f.isEmpty ∨ Storage.endsWithNL f = true)
+    (vs : List (Storage.Bytes × Nat)) (hne : vs ≠ [])
+    (hfirst : ∀ v ∈ vs, f <+: v.1 ∧ v.1 <+: Storage.appendFile classify encode f evs) (hgrow : Storage.GrowsOnly (vs.map (·.1)))
+    (hall : f <+: Storage.chunkedRead vs []) :
+    ∃ n, n ≤ evs.length ∧ Storage.readEvents classify limit (Storage.chunkedRead vs []) = .ok (es ++ evs.take n) :=
+  Storage.chunkedRead_of_append hc f es evs hr hs hnl vs hne hfirst hgrow hall
+
+/-- the defect repaired by 961c71f (refutation witness): if a writer may shrink the open file in place, the reader can hold bytes that were
+    never the file's content and are not even a prefix of it -/
+theorem C13_in_place_truncation_refuted :
+    ∃ (v0 v1 : Storage.Bytes) (n0 n1 : Nat), ¬ (v0 <+: v1) ∧
+      Storage.chunkedRead [(v0, n0), (v1, n1)] [] ≠ v0 ∧ Storage.chunkedRead [(v0, n0), (v1, n1)] [] ≠ v1 ∧
+      ¬ (Storage.chunkedRead [(v0, n0), (v1, n1)] [] <+: v1) :=
+  Storage.in_place_truncation_splices
 
 end Ergo
